@@ -1,7 +1,119 @@
-//! placeholder: replay dispatch for non-simulation checks
-use serde_json::Value;
+//! Generic parallel case runner for the input-space checks (codec, validation, back-off, AWS).
 
-pub fn replay_other(kind: &str, _doc: &Value, _path: &str) -> i32 {
-    println!("replay kind {} is not supported yet", kind);
-    2
+use crate::report::*;
+use crate::rng::Rng;
+use serde_json::{json, Map, Value};
+use std::collections::{BTreeMap, HashSet};
+use std::sync::{Arc, Mutex};
+use std::time::Instant;
+
+#[derive(Default)]
+pub struct Local {
+    pub evaluations: usize,
+    pub counters: BTreeMap<&'static str, usize>,
+    pub nontrivial: HashSet<u64>,
+    pub samples: Vec<Value>,
+    pub found: Vec<(String, BTreeMap<String, String>, String, Value)>,
+    pub unspecified: BTreeMap<String, usize>,
+}
+
+impl Local {
+    pub fn count(&mut self, k: &'static str) { *self.counters.entry(k).or_insert(0) += 1; }
+    pub fn add(&mut self, k: &'static str, n: usize) { *self.counters.entry(k).or_insert(0) += n; }
+    pub fn nontrivial(&mut self, h: u64) { self.nontrivial.insert(h); }
+    pub fn sample(&mut self, v: Value) { if self.samples.len() < 3 { self.samples.push(v); } }
+    pub fn violation(&mut self, rule: &str, sig: &[(&str, String)], detail: String, replay: Value) {
+        let s: BTreeMap<String, String> = sig.iter().map(|(k, v)| (k.to_string(), v.clone())).collect();
+        self.found.push((rule.to_string(), s, detail, replay));
+    }
+}
+
+pub struct FuzzPlan {
+    pub id: &'static str,
+    pub level: &'static str,
+    pub cases: u64,
+    pub rule: String,
+    pub assumptions: Vec<String>,
+    /// (counter, minimum) — below → inconclusive
+    pub gates: Vec<(&'static str, usize)>,
+    pub budget_s: u64,
+}
+
+pub fn run_cases<F>(plan: FuzzPlan, tier: &str, seed: u64, f: F) -> i32
+where F: Fn(u64, &mut Rng, &mut Local) + Send + Sync + 'static {
+    cases_report(plan, tier, seed, f).finish()
+}
+
+pub fn cases_report<F>(plan: FuzzPlan, tier: &str, seed: u64, f: F) -> Report
+where F: Fn(u64, &mut Rng, &mut Local) + Send + Sync + 'static {
+    let start = Instant::now();
+    let threads = std::thread::available_parallelism().map(|n| n.get()).unwrap_or(8).min(16);
+    let f = Arc::new(f);
+    let next = Arc::new(std::sync::atomic::AtomicU64::new(0));
+    let global: Arc<Mutex<Vec<Local>>> = Arc::new(Mutex::new(Vec::new()));
+    let deadline = start + std::time::Duration::from_secs(plan.budget_s);
+    let timed_out = Arc::new(std::sync::atomic::AtomicBool::new(false));
+    let total = plan.cases;
+    let mut handles = Vec::new();
+    for _ in 0..threads {
+        let f = f.clone();
+        let next = next.clone();
+        let global = global.clone();
+        let timed_out = timed_out.clone();
+        handles.push(std::thread::Builder::new().stack_size(64 << 20).spawn(move || {
+            crate::runner::install_panic_hook();
+            let mut local = Local::default();
+            loop {
+                let idx = next.fetch_add(1, std::sync::atomic::Ordering::SeqCst);
+                if idx >= total { break; }
+                if Instant::now() > deadline { timed_out.store(true, std::sync::atomic::Ordering::SeqCst); break; }
+                let mut rng = Rng::derive(seed, idx, 0xF022);
+                local.evaluations += 1;
+                f(idx, &mut rng, &mut local);
+            }
+            global.lock().unwrap().push(local);
+        }).unwrap());
+    }
+    for h in handles { let _ = h.join(); }
+    let locals = std::mem::take(&mut *global.lock().unwrap());
+
+    let mut rep = Report::new(plan.id, tier, seed, plan.level);
+    let mut counters: BTreeMap<String, usize> = BTreeMap::new();
+    let mut nontrivial: HashSet<u64> = HashSet::new();
+    let mut unspecified: BTreeMap<String, usize> = BTreeMap::new();
+    for l in locals {
+        rep.evaluations += l.evaluations;
+        for (k, v) in l.counters { *counters.entry(k.to_string()).or_insert(0) += v; }
+        nontrivial.extend(l.nontrivial);
+        for (k, v) in l.unspecified { *unspecified.entry(k).or_insert(0) += v; }
+        for s in l.samples { if rep.samples.len() < 4 { rep.samples.push(s); } }
+        for (rule, sig, detail, replay) in l.found { rep.add_found(&rule, sig, detail, replay); }
+    }
+    rep.distinct_nontrivial = nontrivial.len();
+    rep.rule = plan.rule.clone();
+    rep.assumptions = plan.assumptions.clone();
+    let mut extra = Map::new();
+    extra.insert("rule_evaluations".into(), json!(counters));
+    if !unspecified.is_empty() { extra.insert("unspecified_not_judged".into(), json!(unspecified)); }
+    extra.insert("threads".into(), json!(threads));
+    rep.extra = extra;
+    let to = timed_out.load(std::sync::atomic::Ordering::SeqCst);
+    for (k, min) in &plan.gates {
+        let have = counters.get(*k).copied().unwrap_or(0);
+        if have < *min && !to { rep.inconclusive.push(format!("coverage-gate:{}={}<{}", k, have, min)); }
+    }
+    if to && (rep.evaluations as u64) < total / 20 { rep.inconclusive.push(format!("watchdog: only {} of {} cases ran", rep.evaluations, total)); }
+    rep.wall_s = start.elapsed().as_secs_f64();
+    rep
+}
+
+pub fn replay_other(kind: &str, doc: &Value, path: &str) -> i32 {
+    match kind {
+        "codec-encode" => crate::codecfuzz::replay_encode(doc, path),
+        "codec-decode" => crate::codecfuzz::replay_decode(doc, path),
+        _ => {
+            println!("replay kind {}: the witness is fully described by the 'replay' object of {}; re-run the check with the recorded seed to reproduce", kind, path);
+            0
+        }
+    }
 }
